@@ -47,6 +47,14 @@ type EntrySpec struct {
 	ExpectDivergence bool               `json:"-"`
 	NoReplay         bool               `json:"no_replay"` // counterexamples cannot be replayed natively (engine-only stubs): report as inconclusive
 	Doc              string             `json:"doc"`
+	Package          string             `json:"package"` // package holding the entry function when it is not spec.package (must be listed under extra_overlays)
+}
+
+// OverlaySpec: harness files overlaid into a second package under test (entries living there name it in
+// their "package" field; native replays of those entries run `go test` on that package).
+type OverlaySpec struct {
+	Package string   `json:"package"`
+	Files   []string `json:"files"`
 }
 
 type Spec struct {
@@ -54,6 +62,7 @@ type Spec struct {
 	Package     string      `json:"package"` // import-path suffix relative to repo, e.g. "./filestore"
 	Files       []string    `json:"files"`   // harness files (relative to harness dir), overlaid into the package dir
 	ExtraPkgs   []string    `json:"extra_packages"`
+	ExtraOverlays []OverlaySpec `json:"extra_overlays"`
 	Entries     []EntrySpec `json:"entries"`
 	Stubs       [][2]string `json:"stubs"` // [target function, harness function]
 	Opaque      []string    `json:"opaque"`
@@ -167,6 +176,18 @@ func check(args []string) int {
 		overlay[virt] = src
 		overlayFiles[virt] = filepath.Join(*hdir, f)
 	}
+	for _, ov := range spec.ExtraOverlays {
+		for _, f := range ov.Files {
+			src, err := os.ReadFile(filepath.Join(*hdir, f))
+			if err != nil {
+				fmt.Fprintln(os.Stderr, "harness file:", err)
+				return 3
+			}
+			virt := filepath.Join(*repo, ov.Package, "zz_verif_"+strings.ToLower(*id)+"_"+filepath.Base(f))
+			overlay[virt] = src
+			overlayFiles[virt] = filepath.Join(*hdir, f)
+		}
+	}
 	rtSrc, err := os.ReadFile(filepath.Join(*verif, "rt/verifrt/rt.go"))
 	if err != nil {
 		fmt.Fprintln(os.Stderr, "verifrt:", err)
@@ -178,6 +199,9 @@ func check(args []string) int {
 
 	cfg := &packages.Config{Mode: packages.LoadAllSyntax, Dir: *repo, Overlay: overlay, Env: append(os.Environ(), "GOFLAGS=-mod=mod", "GOPROXY=off")}
 	patterns := append([]string{spec.Package}, spec.ExtraPkgs...)
+	for _, ov := range spec.ExtraOverlays {
+		patterns = append(patterns, ov.Package)
+	}
 	pkgs, err := packages.Load(cfg, patterns...)
 	if err != nil {
 		fmt.Fprintln(os.Stderr, "load:", err)
@@ -209,10 +233,36 @@ func check(args []string) int {
 	prog, spkgs := ssautil.AllPackages(pkgs, ssa.InstantiateGenerics)
 	prog.Build()
 	loadT := time.Since(t0)
+	// SSA package of a spec package path ("./x/y"): the loaded root whose files live in that directory
+	ssaPkgOf := func(rel string) *ssa.Package {
+		dir := filepath.Join(*repo, rel)
+		for i, p := range pkgs {
+			for _, f := range p.CompiledGoFiles {
+				if filepath.Dir(f) == dir {
+					return spkgs[i]
+				}
+			}
+		}
+		return nil
+	}
 	main := spkgs[0]
+	if len(spec.ExtraOverlays) > 0 {
+		main = ssaPkgOf(spec.Package)
+	}
 	if main == nil {
 		fmt.Fprintln(os.Stderr, "no SSA package for", spec.Package)
 		return 3
+	}
+	harnessPkgs := []*ssa.Package{main}
+	entryPkgs := map[string]*ssa.Package{"": main, spec.Package: main}
+	for _, ov := range spec.ExtraOverlays {
+		sp := ssaPkgOf(ov.Package)
+		if sp == nil {
+			fmt.Fprintln(os.Stderr, "no SSA package for", ov.Package)
+			return 3
+		}
+		harnessPkgs = append(harnessPkgs, sp)
+		entryPkgs[ov.Package] = sp
 	}
 	_ = ast.NewIdent
 	if len(spec.Stubs) > 0 {
@@ -282,7 +332,10 @@ func check(args []string) int {
 			res.skipped = true
 			continue
 		}
-		fn := main.Func(es.Func)
+		var fn *ssa.Function
+		if ep := entryPkgs[es.Package]; ep != nil {
+			fn = ep.Func(es.Func)
+		}
 		if fn == nil {
 			res.err = "entry function not found: " + es.Func
 			continue
@@ -329,7 +382,12 @@ func check(args []string) int {
 				eng.Params = tc.Params
 				eng.AddOpaque(spec.Opaque, spec.NotOpaque)
 				for _, st := range spec.Stubs {
-					h := main.Func(st[1])
+					var h *ssa.Function
+					for _, hp := range harnessPkgs {
+						if h = hp.Func(st[1]); h != nil {
+							break
+						}
+					}
 					if h == nil {
 						eng.Close()
 						return nil, fmt.Errorf("stub function not found: %s", st[1])
@@ -385,11 +443,24 @@ func check(args []string) int {
 	}
 
 	// ---------------------------------------------------------------- native replay
-	rp := &replayer{repo: *repo, verif: *verif, id: *id, pkg: spec.Package, overlayFiles: overlayFiles, spec: &spec, tier: *tier}
-	defer rp.cleanup()
+	rps := map[string]*replayer{}
+	defer func() {
+		for _, r := range rps {
+			r.cleanup()
+		}
+	}()
 	for _, res := range results {
 		if res.rep == nil {
 			continue
+		}
+		rpkg := res.spec.Package
+		if rpkg == "" {
+			rpkg = spec.Package
+		}
+		rp := rps[rpkg]
+		if rp == nil {
+			rp = &replayer{repo: *repo, verif: *verif, id: *id, pkg: rpkg, overlayFiles: overlayFiles, spec: &spec, tier: *tier}
+			rps[rpkg] = rp
 		}
 		tc := res.spec.Tiers[*tier]
 		if _, ok := res.spec.Tiers[*tier]; !ok {
@@ -553,7 +624,7 @@ func (r *replayer) prepare() error {
 	sb.WriteString("func TestVerifReplay(t *testing.T) {\n\tverifrt.Main(map[string]func(){\n")
 	seenEntry := map[string]bool{}
 	for _, e := range r.spec.Entries {
-		if seenEntry[e.Func] {
+		if ep := e.Package; seenEntry[e.Func] || (ep == "" && r.pkg != r.spec.Package) || (ep != "" && ep != r.pkg) {
 			continue
 		}
 		seenEntry[e.Func] = true
